@@ -108,7 +108,7 @@ func chooseShape() shape {
 // and never panics / over-allocates (C07).
 func VerifC06_Framing() {
 	s := chooseShape()
-	installModels(400)
+	installModels(4096)
 	fill = -1
 	p := build(s)
 	verifrt.AllocBudget(len(p.file) + 81920 + 17)
